@@ -659,7 +659,7 @@ func (x *rx) writer() {
 	appends := inLoop(isAppend)
 	restores := inLoop(isRestore)
 	sends := x.sites(top, restoreP.node, 0)
-	if len(appends) == 0 || len(restores) == 0 || len(sends) == 0 || ele == nil {
+	if len(appends) == 0 || len(sends) == 0 || ele == nil {
 		x.c.Undecidedf("R2.batch", "writer", rs.Pos(), "writer loop: found %d `batch = append(batch, ele)` and %d Send(\"RESTORE\") sites (in the loop or in helpers handed the element)", len(appends), len(sends))
 		return
 	}
